@@ -161,6 +161,12 @@ GARBAGE = [b"\x1b[<M", b"\x1b[<1;2M", b"\x1b[<a;b;cM", b"\x1b[<;;M", b"\x1b[M", 
            b"\xe5\xad\x97\xe5", b"\x1b[200", b"\x1b[<0;1;1", b"\x1b[<99999999999;1;1M", b"\x1b[99999999999;1R", b"\x00\x1b\x00", b"\xa4", b"\xa4A",
            b"\x1b[1;2R", b"\x1b[[", b"\x1b[3", b"\x1bOa\x1b[<0;2;3m\x1b[A"]
 
+# multi-byte characters broken off after every number of continuation bytes, followed by something decodable:
+# the bytes already examined must come out as individual events and what follows must decode normally
+for _lead in (b"\xc3", b"\xe5\xad", b"\xe5", b"\xf0\x9f\x98", b"\xf0\x9f", b"\xf0", b"\xa4"):
+    for _next in (b"A", b"\x1b[A", b"\xc3\xa9", b"\xe5\xad\x97", b"\x1b", b"\r", b"\x1b[<0;1;1M", b"\xff"):
+        GARBAGE.append(_lead + _next)
+
 MC_CFG = """CONSTANTS MaxLen = {n} Mode = "{mode}" MidTimeouts = {mid}
 Alphabet = {alpha}
 SPECIFICATION Spec
